@@ -10,6 +10,12 @@ def sstsweep_oracle(script, impl):
     for ws, out in _ops(script, impl):
         if ws[0] == 'tbuild' and not out.startswith('ok'):
             probs.append('table could not be built: ' + out[:80])
+        if ws[0] == 'tcache':
+            f = kv(out)
+            if not out.startswith('cache ') or f.get('wrong', 1) != 0:
+                probs.append('table with more blocks than the block cache holds: %s lookups / iteration steps returned something else than what '
+                             'was written: %s' % (f.get('wrong', '?'), out[:200]))
+            continue
         if ws[0] != 'tsweep':
             continue
         f = kv(out)
@@ -22,7 +28,7 @@ def sstsweep_oracle(script, impl):
 
 
 def sstsweep_nontrivial(script, impl):
-    return any((i or '').startswith('sweep flips=') and kv(i).get('flips', 0) > 1000 for i in impl)
+    return any(((i or '').startswith('sweep flips=') and kv(i).get('flips', 0) > 1000) or (i or '').startswith('cache entries=') for i in impl)
 
 
 def sstsweep_stats(results):
